@@ -504,7 +504,10 @@ func splitGoal(goal string) []string {
 		return []*sexp{e}
 	}
 	vs := variants(t)
-	if len(vs) <= 1 || len(vs) > 12 {
+	if len(vs) == 1 {
+		return []string{vs[0].String()} // trigger copies dropped
+	}
+	if len(vs) == 0 || len(vs) > 12 {
 		return []string{goal}
 	}
 	var out []string
